@@ -2,11 +2,12 @@
   TrC04 — the CURRENT SOURCE of `basic.Canonicalize` and `basic.CanonicalizeTrustVector` (translated by
   tools/go2lean on every run) computes exactly the model's `canonicalize` / `canonicalizeTrustVector`,
   about which Props/C04 proves the canonicalisation laws and scale invariance.
-  (`CanonicalizeLocalTrust` mutates the matrix through the slice shared by `RowVector`, which the
-  translation's value semantics does not carry: it stays hand-modelled, tied by correspondence.)
+  `CanonicalizeLocalTrust` mutates the matrix through the slice shared by `RowVector`: the translator carries
+  that sharing as a write-through view (DESIGN.md 14.2), so it is translated and refined as well.
   Property theorems only.
 -/
 import EtVerif.Proofs.TrCanonTV
+import EtVerif.Proofs.TrLocalTrust
 
 namespace EtVerif.TrC04
 open EtVerif EtVerif.GoSem EtVerif.Gen EtVerif.Tr Scalar
@@ -29,5 +30,17 @@ theorem canonicalize_refines (es : List (Entry α)) :
 theorem canonicalizeTrustVector_refines (v : Vec α) :
     (Gen.CanonicalizeTrustVector (toGV v)).map (fun r => r.1.v) = .ok (toGV (canonicalizeTrustVector v)) :=
   CanonicalizeTrustVector_refines v
+
+/-- localtrust.go `CanonicalizeLocalTrust` = `canonicalizeLocalTrust`: every row divided by its compensated sum
+    in place; a zero-sum row replaced by the pre-trust's entries when a pre-trust is given, left untouched
+    otherwise — for EVERY row position; a non-square matrix or a pre-trust of another dimension refused
+    untouched.  Fuel ≥ the number of rows. -/
+theorem canonicalizeLocalTrust_refines (fuel : Nat) (m : CSM α) (p : Option (Vec α))
+    (hrows : m.rows.length = m.major) (hf : m.major ≤ fuel) :
+    (Gen.CanonicalizeLocalTrust fuel (toGM m) (p.map toGV)).map (fun r => (r.1.localTrust, r.2)) =
+      (match canonicalizeLocalTrust m p with
+       | .ok m' => .ok (toGM m', none)
+       | .error _ => .ok (toGM m, some ⟨"ErrDimensionMismatch"⟩)) :=
+  CanonicalizeLocalTrust_refines fuel m p hrows hf
 
 end EtVerif.TrC04
